@@ -85,7 +85,9 @@ CHECKS = {
             "bookkeeping, earlier instructions in the same emulator or harness process, process-wide counters) must give "
             "identical architectural results; every element of the stated finite domains is executed on both cores. The last "
             "instruction of every control-flow script (calls/returns/interrupts across pages, length <= 4/5) is run in the object "
-            "that executed the script and in a fresh object holding the same registers and memory.",
+            "that executed the script and in a fresh object holding the same registers and memory. Machine level: all 2^k ways "
+            "(k<=3) of leaving k interrupt handlers through RETI or by popping the frame by hand, and the interrupt mask written by "
+            "byte stores vs one word store, are brought to one common architectural state and continued under four event tails.",
             "Architectural state is taken as BA,I,X,Y,U,S,PC,F plus memory; machine-level split runs are covered by the "
             "C12/C16/C18 drivers.",
             "DESIGN.md section 4, C07"),
@@ -138,7 +140,9 @@ CHECKS = {
             "For each configuration a BFS over {step, ON press/release, key press/release, injected key event} with a bounded "
             "number of non-step events explores all reachable machine states to the stated depth (also from roots where a handler "
             "has already returned); monitors check gated delivery, the 5-byte frame, master-enable clearing, the vector, RETI as "
-            "inverse, that pending requests are neither lost nor ignored once unmasked, HALT freeze/wake and OFF stopping timers.",
+            "inverse, that pending requests are neither lost nor ignored once unmasked, HALT freeze/wake and OFF stopping timers. "
+            "Step-only runs of 52/80 instructions (timer pairs that expire once, a late single unmask, stack frames across the RAM edge, "
+            "keyboard interrupts switched off) go through the same monitors.",
             "Synthetic ROM (vectors, short loops) instead of real firmware; handlers begin with NOP and main loops leave S/F alone "
             "so a delivery is recognisable across one step on both models; depth 6/10 (Rust) and 5/7 (Python), <=2/3 deviations.",
             "DESIGN.md section 4, C12"),
@@ -152,7 +156,8 @@ CHECKS = {
             "(incl. a RESET-executing one) with an alignment-agnostic per-step monitor (target in the future, no boundary skipped, phase kept, status bit set, "
             "disabled timers silent; tick alignment calibrated per machine on a NOP loop and required of idle HALT cycles); the device BFS also "
             "contains the real Python save/load path, a snapshot taken after the counter advanced and a whole-machine reset. "
-            "Periods above 7 are covered by directed sequences only.",
+            "Periods above 7 are covered by directed sequences only; counters beyond 2^31 by one large gap followed by snapshot/ticks "
+            "(periods >= 1024).",
             "DESIGN.md section 4, C13"),
     "C18": ("model_checking",
             "exhaustive enumeration (in Rust, on the real AsyncDriver) of task sets x budget partitions against a reference "
